@@ -80,3 +80,4 @@ def renormalized(chk):
     I = chk.summary(BACKTEST, "RenormalizedFixedIncomeResult", "__init__", host="RenormalizedFixedIncomeResult")
     ok = any(True for e in I.raises if any((not p) and sym.contains(a, lambda n: (n[0] == "fld" and n[2] == "_fixed_income") or (n[0] == "attr" and n[2] == "fixed_income")) for a, p in e.guard))
     chk.ob("C17.R6", ok, BACKTEST, "RenormalizedFixedIncomeResult.__init__", "non-fi-rejected", "backtests that are not on a fixed-income strategy are rejected", where=I.fn.where)
+    core_rules.security_setup_rules(chk, "C17")
